@@ -294,9 +294,15 @@ def run(f, fixture, rep, cfg, tier):
         fe = [c for c in b.calls() if c.decl.endswith("find_entry_or_err")]
         ok = len(fe) == 1 and any(isinstance(u[2], tuple) and b.call_at(u[0]).decl == "std::ops::Try::branch" for u in b.uses(fe[0].dest["l"]))
         rep.check(ok and render(t.term(fe[0].args[1])) == "tag", "R3", "getter|%s|lookup" % suffix, "looks the tag up and propagates TagNotFound", "get_entry_data_as_%s lookup: %s" % (suffix, calls[:3]), b.span)
-        ac = [c for c in b.calls() if re.search(r"IndexData::as_\w+$", c.decl)]
-        rep.check(len(ac) == 1 and ac[0].decl.endswith("::" + asfn), "R3", "getter|%s|as" % suffix, "uses IndexData::%s" % asfn,
-                  "get_entry_data_as_%s uses %s" % (suffix, [c.decl.rsplit("::", 1)[-1] for c in ac]), b.span)
+        ac_names = [c.decl for c in b.calls() if re.search(r"IndexData::as_\w+$", c.decl)]
+        # the conversion may be handed to a (spliced-in) lookup helper as a function value: `lookup(tag, "uint32", IndexData::as_u32)`
+        for c in b.calls():
+            if re.search(r"^std::ops::(FnOnce::call_once|FnMut::call_mut|Fn::call)$", c.decl) and c.args:
+                for lf in b.origins(c.args[0], passthrough={}):
+                    if lf["kind"] == "const" and "fn" in lf["k"] and re.search(r"IndexData::as_\w+$", lf["k"]["fn"].get("path", "")):
+                        ac_names.append(lf["k"]["fn"]["path"])
+        rep.check(len(ac_names) == 1 and ac_names[0].endswith("::" + asfn), "R3", "getter|%s|as" % suffix, "uses IndexData::%s" % asfn,
+                  "get_entry_data_as_%s uses %s" % (suffix, [n_.rsplit("::", 1)[-1] for n_ in ac_names]), b.span)
         errs = constructed_errors(f, b)      # in the getter itself (match / let-else form) or in its ok_or_else closure
         rep.check(errs == {"UnexpectedTagDataType"}, "R3", "getter|%s|type-error" % suffix, "a different data type is UnexpectedTagDataType", "type mismatch yields %s" % sorted(errs), b.span)
     fe = f.one("header::Header::<T>::find_entry_or_err")
@@ -486,6 +492,19 @@ def run(f, fixture, rep, cfg, tier):
                     errt = info["otherwise"]
                 if errt is not None and all(gd.dominates(errt, eb) for eb in empties):
                     tested = True
+            if not tested:
+                # the three-way decision may sit in a (spliced-in) helper whose `Ok(None)` comes back through `?` and a `let .. else`:
+                # dominance is lost at the helper's return, so ask the path explorer - every abstract state that reaches the empty
+                # result has seen this getter's result as Err
+                try:
+                    from pathsens import PathExplorer
+                    if "_pe_gd" not in dir():
+                        _pe_gd = PathExplorer(gd)
+                        _pe_gd.run()
+                    at_empty = [n_ for n_ in _pe_gd.parent if n_[0] in empties]
+                    tested = bool(at_empty) and all(("d", ("call", g.bb, ()), 1) in n_[1] for n_ in at_empty)
+                except RuntimeError:
+                    tested = False
             rep.check(tested, "R5", "get_dependencies|empty-needs-absent|%s" % tagname, "the empty result requires %s to be absent" % tagname,
                       "get_dependencies returns an empty list without having seen the %s getter fail: a header that has the other tags of the triple is reported as having no dependencies" % tagname, g.loc())
     gsb = f.one("package::PackageMetadata::get_scriptlet")
